@@ -18,9 +18,17 @@ class MCase:
         # G/Q (get_global_default / is_global_default_set, T = on a fresh thread) are the model's PGet / PIsSet
         self.prefix, self.dtags, self.dcid, self.script, self.steps = prefix, dtags, dcid, script, steps
 
+    INNER = ("g", "u64", 7, "nested.inner", [("in", "x")])
+
     def line(self, ft=None):
         st = []
         for s in self.steps:
+            if s[0] == "N" and ft is not None:
+                # model side: the nested invocation is two invocations one after the other - the inner one (run while the
+                # outer one's value expression is evaluated) and the outer one; merge_nested() joins their observations
+                k, ty, v, key, tags = self.INNER
+                st.append("I|%s|%s|%s|%s" % (k, arg_token(ty, v, ft), hx(key), ",".join("%s:%s" % (hx(a), hx(b)) for a, b in tags)))
+                s = ("I",) + tuple(s[1:])
             if s[0] in ("G", "GT", "Q", "QT"):
                 st.append(s[0])
             elif s[0] in "SZ":
@@ -35,7 +43,28 @@ class MCase:
     # the shape wire.judge_call / wire.all_float_bits expect
     @property
     def calls(self):
-        return [("Q", s[1], s[2], s[3], s[4], [("t", k, x) for k, x in s[5]]) for s in self.steps if s[0] in ("I", "T", "U")]
+        return [("Q", s[1], s[2], s[3], s[4], [("t", k, x) for k, x in s[5]]) for s in self.steps if s[0] in ("I", "T", "U", "N")]
+
+
+def merge_nested(case, mobs):
+    """join the model's two observations of every N step (inner, outer) into the one the implementation reports"""
+    per = mobs.split("|")
+    out, i = [], 0
+    for s in case.steps:
+        if s[0] in "SZ":
+            continue
+        if s[0] == "N" and i + 1 < len(per):
+            a, b = per[i].split(","), per[i + 1].split(",")
+            if a[0] == "panic":                 # no client: the outer invocation panics before its value is evaluated
+                out.append(per[i + 1])
+            else:
+                j = lambda x, y: "+".join(z for z in (x, y) if z != "~") or "~"
+                out.append(",".join([b[0], j(a[1], b[1]), j(a[2], b[2]), b[3]]))
+            i += 2
+        else:
+            out.append(per[i] if i < len(per) else "")
+            i += 1
+    return "|".join(out)
 
 
 def rand_tags(rng, n, mode):
@@ -68,7 +97,11 @@ def gen_cases(rng, n_random):
             if deco:
                 cases.append(MCase("pre.fix.", [("dk", "dv"), (None, "bare")], "cid", script, steps))
             else:
+                # ... and (all-accepting sink) an invocation whose value expression invokes another macro first
+                steps.append(("N", kind, ty, rand_val(rng, ty), "outer", rand_tags(rng, 1, "clean")))
                 cases.append(MCase("", [], None, [], steps))
+                cases.append(MCase("np.", [("d", "t")], "cc", [], [("N", kind, ty, rand_val(rng, ty), "early", []), ("S",),
+                                                                  ("N", kind, ty, rand_val(rng, ty), "k", rand_tags(rng, 2, "clean"))]))
     # never set: every macro panics, nothing is evaluated
     steps = [("I" if i % 2 else "T", k, t, rand_val(rng, t), "k", rand_tags(rng, i % 6, "clean")) for i, (k, t) in enumerate(ENTRIES)]
     cases.append(MCase("p", [], None, [], steps))
@@ -130,6 +163,17 @@ def judge(case, obs, ftext):
         ret, emitted, handled, evals = ob.split(",")
         _, kind, ty, v, key, tags = s
         n = len(tags)
+        if s[0] == "N" and which == "cfg" and ret != "panic":
+            # the inner invocation's line reaches the sink first, whole; what remains is judged as the outer invocation
+            ik, ity, iv, ikey, itags = MCase.INNER
+            icall = ("Q", ik, ity, iv, ikey, [("t", a, b) for a, b in itags])
+            want_inner = hx(wire.render_expected(wire.expected_sections(case, icall, ftext)))
+            em = [] if emitted == "~" else emitted.split("+")
+            if not em or em[0] != want_inner:
+                bad.append("a macro invoked inside the value expression of another invocation did not send its line first "
+                           "(sink saw %s, expected %s first) (macro %s, %s, %d tags)" % (em[:2], want_inner, kind, ty, n))
+                continue
+            emitted = "+".join(em[1:]) or "~"
         if which is None:
             if (ret, emitted, handled, evals) != ("panic", "~", "~", "~"):
                 bad.append("no global client set: expected a panic with nothing evaluated, emitted or handled; got %s" % ob[:200])
@@ -203,7 +247,7 @@ def check_C17(tier, seed):
                 ftext[b] = t.split(":")
         lines = [c.line() for c in cases]
         impl = common.run_harness("mac", lines, shards=common.NCPU)
-        model = common.run_model("mac", [c.line(ftext) for c in cases])
+        model = [merge_nested(c, m) for c, m in zip(cases, common.run_model("mac", [c.line(ftext) for c in cases]))]
         common.kernel_crosscheck(rep, "mac", [c.line(ftext) for c in cases], 150 if thorough else 50)
     except common.CheckFailure as e:
         rep.violation_noinput("correspondence run failed", {"error": str(e)})
@@ -248,7 +292,7 @@ def check_C17(tier, seed):
             dist["entry_points"][ek] = dist["entry_points"].get(ek, 0) + 1
         dist["refused"] += o.count("eio:")
         dist["rejected_value"] += o.count("einv")
-        if any(s[0] in ("I", "T", "U") for s in c.steps):
+        if any(s[0] in ("I", "T", "U", "N") for s in c.steps):
             nt.add(case_hash(l))
     rep.cov["evaluations"] = dist["invocations"]
     rep.cov["distinct_nontrivial"] = len(nt)
